@@ -264,13 +264,44 @@ func apOf(v ssa.Value) AP {
 	case *ssa.Field:
 		a := apOf(x.X)
 		if f := structField(x.X.Type(), x.Field); f != nil {
+			if al, ok := a.Root.(*ssa.Alloc); ok && len(a.Sel) == 0 && isStateObject(al) {
+				if o := fieldOrigin(al, f); o != nil {
+					if _, isConst := o.(*ssa.Const); !isConst {
+						if oa := apOf(o); oa.Root != ssa.Value(al) {
+							return oa
+						}
+					}
+				}
+			}
 			if !promotes(f) {
 				a.Sel = append(append([]string{}, a.Sel...), f.Name())
 			}
 			return a
 		}
+	case *ssa.Parameter:
+		// the receiver of a method used only as a method value: the object bound there
+		if b := recvBinding(x); b != nil {
+			return apOf(b)
+		}
 	case *ssa.UnOp:
 		if x.Op == token.MUL {
+			// the value read from a field of an operation's state object that is written once
+			// in the whole module is a copy of what was stored there: the path names the
+			// origin (as for a captured variable)
+			if fa, ok := x.X.(*ssa.FieldAddr); ok {
+				if f := structField(fa.X.Type(), fa.Field); f != nil {
+					a := apOf(fa.X)
+					if al, ok := a.Root.(*ssa.Alloc); ok && len(a.Sel) == 0 && isStateObject(al) {
+						if o := fieldOrigin(al, f); o != nil {
+							if _, isConst := o.(*ssa.Const); !isConst {
+								if oa := apOf(o); oa.Root != ssa.Value(al) {
+									return oa
+								}
+							}
+						}
+					}
+				}
+			}
 			return apOf(x.X)
 		}
 	case *ssa.IndexAddr:
@@ -297,7 +328,7 @@ func apOf(v ssa.Value) AP {
 		}
 	case *ssa.Alloc:
 		if p := cellParam(x); p != nil {
-			return AP{Root: p}
+			return apOf(p)
 		}
 		if sv := singleStore(x); sv != nil {
 			// a local holding a copy of another value: the path names the origin
@@ -422,8 +453,16 @@ func privateCell(v ssa.Value) *ssa.Alloc {
 		return nil
 	}
 	al, ok := ld.X.(*ssa.Alloc)
-	if !ok || al.Heap && false {
-		return nil
+	if !ok {
+		// a read, inside a deferred function literal, of a variable of the deferring function
+		fv, isFv := ld.X.(*ssa.FreeVar)
+		if !isFv {
+			return nil
+		}
+		al, ok = freeVarBinding(fv).(*ssa.Alloc)
+		if !ok {
+			return nil
+		}
 	}
 	for _, ref := range *al.Referrers() {
 		switch x := ref.(type) {
@@ -436,11 +475,44 @@ func privateCell(v ssa.Value) *ssa.Alloc {
 				return nil
 			}
 		case *ssa.DebugRef:
+		case *ssa.MakeClosure:
+			// captured by a function literal that only reads it and is only deferred: it runs
+			// at the owner's exits, after all of the owner's stores
+			if !readOnlyDeferredCapture(x, al) {
+				return nil
+			}
 		default:
 			return nil
 		}
 	}
 	return al
+}
+
+// readOnlyDeferredCapture: the closure mc captures cell al, only ever loads it, and its
+// only use is as the operand of a defer statement.
+func readOnlyDeferredCapture(mc *ssa.MakeClosure, al *ssa.Alloc) bool {
+	f, ok := mc.Fn.(*ssa.Function)
+	if !ok {
+		return false
+	}
+	for _, ref := range *mc.Referrers() {
+		d, isD := ref.(*ssa.Defer)
+		if !isD || d.Call.Value != ssa.Value(mc) {
+			return false
+		}
+	}
+	for i, b := range mc.Bindings {
+		if b != ssa.Value(al) || i >= len(f.FreeVars) {
+			continue
+		}
+		for _, ref := range *f.FreeVars[i].Referrers() {
+			u, isU := ref.(*ssa.UnOp)
+			if !isU || u.Op != token.MUL {
+				return false
+			}
+		}
+	}
+	return true
 }
 
 // reachAvoiding computes the set of blocks reachable from block from (the
